@@ -304,7 +304,9 @@ func (c *Ctx) includeKeys(label, other string, keep func(rule string) bool, keep
 		if !keep(base) || o.Status == report.Advisory {
 			continue
 		}
-		if keepKey != nil && !keepKey(base, o.Key) && !(strings.HasSuffix(o.Rule, ".undecided") && o.Status == report.Violation) {
+		// (an "anchor not found" of the other property is adopted with the selection only when the selection
+		// would otherwise be empty: see the vacuity test below)
+		if keepKey != nil && !keepKey(base, o.Key) {
 			continue
 		}
 		if o.Status == report.Violation && sub.IsOpenKnown(o.Rule, o.Key) {
